@@ -580,9 +580,16 @@ func overlayFromPatch(repo, patch, scratch, id string) (map[string][]byte, error
 	}
 	dir := filepath.Join(scratch, "seed_"+id)
 	var files []string
+	seenFile := map[string]bool{}
 	for _, l := range strings.Split(string(b), "\n") {
-		if strings.HasPrefix(l, "+++ b/") {
-			files = append(files, strings.TrimPrefix(l, "+++ b/"))
+		for _, pfx := range []string{"+++ b/", "--- a/"} {
+			if strings.HasPrefix(l, pfx) {
+				f := strings.TrimSpace(strings.TrimPrefix(l, pfx))
+				if !seenFile[f] {
+					seenFile[f] = true
+					files = append(files, f)
+				}
+			}
 		}
 	}
 	for _, f := range files {
@@ -612,6 +619,20 @@ func overlayFromPatch(repo, patch, scratch, id string) (map[string][]byte, error
 	for _, f := range files {
 		nb, err := os.ReadFile(filepath.Join(dir, f))
 		if err != nil {
+			if os.IsNotExist(err) && strings.HasSuffix(f, ".go") {
+				// the patch deletes the file: an overlay cannot remove it, an empty file of the same package is the same
+				if src, err2 := os.ReadFile(filepath.Join(repo, f)); err2 == nil {
+					pkgLine := "package main"
+					for _, l := range strings.Split(string(src), "\n") {
+						if strings.HasPrefix(l, "package ") {
+							pkgLine = strings.TrimSpace(l)
+							break
+						}
+					}
+					ov[filepath.Join(repo, f)] = []byte(pkgLine + "\n")
+					continue
+				}
+			}
 			return nil, err
 		}
 		ov[filepath.Join(repo, f)] = nb
